@@ -18,6 +18,8 @@
 EXTENDS Integers, Sequences, FiniteSets, TLC, Json
 
 CONSTANTS Names,             \* mailbox names (strings)
+          Kinds,             \* the kinds of steps this configuration explores: Create, CreateRefused, Delete, Bump, Restart
+          Sessions,          \* the client sessions that issue CREATE / DELETE ("conn" = the connector creates / deletes)
           MaxSteps,
           MaxNow,            \* bound on the abstract clock
           Dts,               \* seconds that may pass at a restart, e.g. {0, 1, 3}
@@ -42,25 +44,36 @@ Init ==
   /\ val = [n \in Names |-> None]
   /\ best = [n \in Names |-> 0]
   /\ ahead = FALSE
-  /\ lastAct = [act |-> "Init", name |-> "", dt |-> 0, value |-> 0, f16 |-> FALSE]
+  /\ lastAct = [act |-> "Init", s |-> "", name |-> "", dt |-> 0, value |-> 0, f16 |-> FALSE]
   /\ steps = 0 /\ hist = <<>>
 
-Log(a, n, dt, v, f) == lastAct' = [act |-> a, name |-> n, dt |-> dt, value |-> v, f16 |-> f] /\ steps' = steps + 1
+LogS(a, s, n, dt, v, f) == lastAct' = [act |-> a, s |-> s, name |-> n, dt |-> dt, value |-> v, f16 |-> f] /\ steps' = steps + 1
+Log(a, n, dt, v, f) == LogS(a, "", n, dt, v, f)
 
-Create(n) ==
+\* CREATE by session s (State.Create) or MailboxCreated from the connector (s = "conn"): one Generate() call
+Create(s, n) ==
   /\ val[n] = None
   /\ LET v == Gen(last) IN
      /\ val' = [val EXCEPT ![n] = v]
      /\ best' = [best EXCEPT ![n] = IF v > @ THEN v ELSE @]
      /\ last' = v
      \* the value is not above what the name had before: only possible after generator state was lost
-     /\ Log("Create", n, 0, v, v <= best[n])
+     /\ LogS("Create", s, n, 0, v, v <= best[n])
   /\ UNCHANGED <<now, ahead>>
 
-Delete(n) ==
+\* CREATE of a name that exists: answered NO - State.Create has asked the generator for a value before it looks,
+\* so a refused CREATE uses one value up; it must not influence what any later CREATE of any session gets
+\* beyond that.  (The connector's MailboxCreated for a known mailbox is a no-op and asks for nothing.)
+CreateRefused(s, n) ==
+  /\ val[n] # None /\ s # "conn"
+  /\ last' = Gen(last)
+  /\ LogS("CreateRefused", s, n, 0, 0, FALSE)
+  /\ UNCHANGED <<now, val, best, ahead>>
+
+Delete(s, n) ==
   /\ val[n] # None
   /\ val' = [val EXCEPT ![n] = None]
-  /\ Log("Delete", n, 0, 0, FALSE)
+  /\ LogS("Delete", s, n, 0, 0, FALSE)
   /\ UNCHANGED <<now, last, best, ahead>>
 
 \* UIDValidityBumped: every existing mailbox gets a fresh value, one Generate() call each (in a fixed order)
@@ -89,11 +102,13 @@ Restart(dt) ==
   /\ UNCHANGED <<val, best>>
 
 Free ==
-  \/ \E n \in Names : Create(n) \/ Delete(n)
-  \/ Bump
-  \/ \E dt \in Dts : Restart(dt)
+  \/ "Create" \in Kinds /\ \E s \in Sessions, n \in Names : Create(s, n)
+  \/ "Delete" \in Kinds /\ \E s \in Sessions, n \in Names : Delete(s, n)
+  \/ "CreateRefused" \in Kinds /\ \E s \in Sessions, n \in Names : CreateRefused(s, n)
+  \/ "Bump" \in Kinds /\ Bump
+  \/ "Restart" \in Kinds /\ \E dt \in Dts : Restart(dt)
 
-StepRecord == [act |-> lastAct'.act, name |-> lastAct'.name, dt |-> lastAct'.dt, value |-> lastAct'.value, f16 |-> lastAct'.f16,
+StepRecord == [act |-> lastAct'.act, s |-> lastAct'.s, name |-> lastAct'.name, dt |-> lastAct'.dt, value |-> lastAct'.value, f16 |-> lastAct'.f16,
                val |-> val', ahead |-> ahead']
 Keep == IF Record THEN hist' = Append(hist, StepRecord) ELSE hist' = hist
 Closing == steps = MaxSteps /\ steps' = steps + 1 /\ UNCHANGED <<now, last, val, best, ahead, lastAct, hist>>
